@@ -37,7 +37,32 @@ def boolrows(t, n):
     return [[int(bool(v)) for v in r] for r in rows(t, n)]
 
 
+def getters(enc, k):
+    return [enc.steps, enc.dt, enc.frequency, enc.compensated if k == "hpe" else None,
+            enc.refrac if k == "hpe" else None, enc.duration]
+
+
+def apply_assignments(enc, case, trace):
+    """property assignments after construction; after each one: exception class (or None) and every getter"""
+    k = case["kind"]
+    for attr, val in case.get("assign", []):
+        err, extra = None, None
+        try:
+            if attr == "generator":
+                g2 = gen(val)
+                enc.generator = g2
+                extra = enc.generator is g2
+            else:
+                setattr(enc, attr, val)
+        except Exception as e:  # noqa
+            err = exc_code(e)
+            extra = f"{type(e).__name__}: {e}"[:160]
+        trace.append([err, getters(enc, k), extra])
+
+
 def build(case, g):
+    if "ctor" in case:
+        case = dict(case, **case["ctor"])
     k = case["kind"]
     if k == "hpe":
         return HomogeneousPoissonEncoder(case["steps"], case["dt"], case["freq"], refrac=case["refrac"],
@@ -49,13 +74,21 @@ def build(case, g):
     raise AssertionError(k)
 
 
-def call(case, g):
+def call(case, g, out=None):
     """returns the encoder's return value (tensor or iterator); may raise (constructor errors included)"""
     k = case["kind"]
     shape = case["shape"]
     if k in ("hpe", "hpa", "pie"):
         enc = build(case, g)
         KEEP.append(enc)
+        if "assign" in case:
+            trace = []
+            if out is not None:
+                out["getters0"] = getters(enc, k)
+                out["setter_trace"] = trace
+            apply_assignments(enc, case, trace)
+            if out is not None:
+                out["stage"] = "forward"
         return enc(tens(case["x"], shape), online=case["online"])
     if k == "f_inhomog":
         return nf.inhomogeneous_poisson_bernoulli_approx(tens(case["x"], [case["steps"]] + shape), case["dt"], generator=g)
@@ -77,7 +110,11 @@ class Replayer:
 
     def __init__(self, case):
         self.case = case
-        self.g = gen(case["seed"])
+        seed = case["seed"]
+        for attr, val in case.get("assign", []):
+            if attr == "generator":
+                seed = val          # the draws come from the generator assigned last
+        self.g = gen(seed)
         k = case["kind"]
         self.family = {"hpe": "exp", "f_exp": "exp", "pie": "pint", "f_pint": "pint"}.get(k, "bern")
         shape = case["shape"]
@@ -156,7 +193,7 @@ def run_once(case, want_draws, gather=False):
     g = gen(case["seed"])
     try:
         out["stage"] = "call"
-        res = call(case, g)
+        res = call(case, g, out)
         if torch.is_tensor(res):
             out["shape_ok"] = list(res.shape) == [int(case["steps"])] + list(case["shape"])
             out["dtype_ok"] = res.dtype == torch.bool
